@@ -443,14 +443,14 @@ func newScript(u *Universe) *Script {
 		"(declare-sort F64 0)",
 		"(declare-datatypes ((Slice 0)) (((mk-slice (s-arr Int) (s-off Int) (s-len Int) (s-cap Int)))))",
 		"(declare-datatypes ((Iface 0)) (((mk-iface (i-type Int) (i-val Int)))))",
-		"(declare-fun str.len (Str) Int)",
-		"(declare-fun str.at (Str Int) Int)",
-		"(declare-fun str.cat (Str Str) Str)",
+		"(declare-fun gstr.len (Str) Int)",
+		"(declare-fun gstr.at (Str Int) Int)",
+		"(declare-fun gstr.cat (Str Str) Str)",
 		"(declare-const str_empty Str)",
 		"(declare-const f64_zero F64)",
-		"(assert (= (str.len str_empty) 0))",
-		"(assert (forall ((s Str)) (! (>= (str.len s) 0) :pattern ((str.len s)))))",
-		"(assert (forall ((a Str) (b Str)) (! (= (str.len (str.cat a b)) (+ (str.len a) (str.len b))) :pattern ((str.cat a b)))))",
+		"(assert (= (gstr.len str_empty) 0))",
+		"(assert (forall ((s Str)) (! (>= (gstr.len s) 0) :pattern ((gstr.len s)))))",
+		"(assert (forall ((a Str) (b Str)) (! (= (gstr.len (gstr.cat a b)) (+ (gstr.len a) (gstr.len b))) :pattern ((gstr.cat a b)))))",
 	)
 	return s
 }
@@ -552,10 +552,10 @@ func (s *Script) strLit(v string) Term {
 	if !s.declared["lit:"+name] {
 		s.declared["lit:"+name] = true
 		s.emit("(declare-const %s Str) ; %q", name, v)
-		s.emit("(assert (= (str.len %s) %d))", name, len(v))
+		s.emit("(assert (= (gstr.len %s) %d))", name, len(v))
 		if len(v) <= 80 {
 			for i := 0; i < len(v); i++ {
-				s.emit("(assert (= (str.at %s %d) %d))", name, i, v[i])
+				s.emit("(assert (= (gstr.at %s %d) %d))", name, i, v[i])
 			}
 		}
 		// distinct from other literals declared so far
